@@ -36,6 +36,10 @@ def radii_of(case):
         n = int(a[2])
         vals = [a[0] + (a[1] - a[0]) * k / (n - 1) for k in range(n)]
     else:
+        if len(a) == 1:
+            a = [Fraction(0), a[0], Fraction(1)]
+        elif len(a) == 2:
+            a = [a[0], a[1], Fraction(1)]
         vals, x = [], a[0]
         while x < a[1]:
             vals.append(x)
@@ -205,6 +209,12 @@ def _shard(arg):
             else:
                 args = [dec(a), dec(a + span), str(T)]
                 text = f"linspace({args[0]}, {args[1]}, {T})"
+        elif draw(st.integers(0, 3)) == 0:
+            # range with the default step of 1 nm: range(a, b) (the one-argument form starts at radius 0, which C05 excludes)
+            a = Fraction(draw(st.integers(1, 3000)), 1000)
+            stop = a + T - Fraction(1, 2)
+            args = [dec(a), dec(stop)]
+            text = draw(st.sampled_from(["range", "arange"])) + f"({args[0]}, {args[1]})"
         else:
             a = Fraction(draw(st.integers(1, 2000)), 1000)
             step = Fraction(draw(st.integers(10, 1000)), 1000)
